@@ -1,7 +1,10 @@
 (* A parity volume file that is present but does not parse (identification string, version,
    truncation, control hash) is unusable, exactly like a missing one: the loading phase of the
    PAR 1.0 decoder returns the same result whether the file is absent or present and damaged.
-   (The one-step fact load_vols_unparsable_is_unusable is in Proofs/Par1Facts.v.) *)
+   (The one-step fact load_vols_unparsable_is_unusable is in Proofs/Par1Facts.v.)
+   The same holds for a file that parses but is not a volume of the set: a stale or foreign volume
+   carrying another set hash, or a volume number that is not the one of its file name
+   (load_vols_foreign_is_unusable, Par1Facts.not_member): V3 below. *)
 From Coq Require Import Lia.
 From Gopar Require Import Model.Base Model.Matrix Model.GF8 Model.CRC Model.GoPath Model.FS Model.Par1
      Proofs.GoPathFacts Proofs.Par2Facts Proofs.Par1Facts Proofs.Par1Clean Proofs.Par1RoundTrip.
@@ -63,7 +66,8 @@ Section Par1Volumes.
 
   (* LoadParityData on two fault-free states that differ at the path P only, where the first has no file
      and the second a file that does not parse: the same slots and shard size *)
-  Lemma load_vols_fst_skip ix sh P b x : read_volume md5 b = Err x ->
+  Lemma load_vols_fst_skip_gen ix sh P b :
+    (forall j, volume_path ix (N.of_nat j) = P -> not_member md5 sh (N.of_nat j) b) ->
     forall n i size acc st st2, io_sched st = [] -> io_sched st2 = [] ->
     (forall j, volume_path ix (N.of_nat j) <> P ->
        read_res (io_fs st2) (volume_path ix (N.of_nat j)) = read_res (io_fs st) (volume_path ix (N.of_nat j))) ->
@@ -81,25 +85,41 @@ Section Par1Volumes.
       - rewrite Hf1. exact HP.
       - rewrite Hf2. exact HP2. }
     destruct (list_eq_dec N.eq_dec (volume_path ix (N.of_nat (S i))) P) as [E|NE].
-    - rewrite E, HP, HP2, Hb. apply IH'.
+    - rewrite E, HP, HP2. specialize (Hb (S i) E). unfold not_member in Hb.
+      destruct (read_volume md5 b) as [v|x|q]; [|apply IH'|destruct Hb].
+      destruct (bytes_eqb (v_sethash_stored v) sh) eqn:E1; cbn [negb]; [|apply IH'].
+      destruct (N.eqb_spec (v_number v) (N.of_nat (S i))) as [E2|E2]; cbn [negb]; [|apply IH'].
+      exfalso. destruct Hb as [Hb|Hb]; [apply Hb; apply bytes_eqb_eq; exact E1|exact (Hb E2)].
     - rewrite (Hrd (S i) NE).
       destruct (read_res (io_fs st) (volume_path ix (N.of_nat (S i)))) as [b'|x'|q']; [| |reflexivity].
       + destruct (read_volume md5 b') as [v|x''|q'']; [|apply IH'|reflexivity].
         repeat lazymatch goal with
-               | |- fst (if ?c then _ else _) = _ => destruct c; [reflexivity|]
+               | |- fst (if ?c then _ else _) = _ => destruct c; [first [reflexivity | apply IH']|]
                end.
         apply IH'.
       + destruct x'; try reflexivity. apply IH'.
   Qed.
 
+  Lemma load_vols_fst_skip ix sh P b x : read_volume md5 b = Err x ->
+    forall n i size acc st st2, io_sched st = [] -> io_sched st2 = [] ->
+    (forall j, volume_path ix (N.of_nat j) <> P ->
+       read_res (io_fs st2) (volume_path ix (N.of_nat j)) = read_res (io_fs st) (volume_path ix (N.of_nat j))) ->
+    read_res (io_fs st) P = Err ENotExist -> read_res (io_fs st2) P = Ok b ->
+    fst (load_vols md5 ix sh i n size acc st2) = fst (load_vols md5 ix sh i n size acc st).
+  Proof.
+    intros Hb. apply load_vols_fst_skip_gen. intros j _. unfold not_member. rewrite Hb. exact I.
+  Qed.
+
   (* the loading phase, over the read results of the paths it touches *)
-  Lemma p1_load_fst_same_gen ix fs fs' P b x :
+  Lemma p1_load_fst_same_gen ix fs fs' P b :
     read_res fs' ix = read_res fs ix ->
     (forall bi v e, read_res fs ix = Ok bi -> read_volume md5 bi = Ok v -> In e (v_entries v) -> saved e = true ->
        read_res fs' (epath ix e) = read_res fs (epath ix e)) ->
     (forall j, volume_path ix (N.of_nat j) <> P ->
        read_res fs' (volume_path ix (N.of_nat j)) = read_res fs (volume_path ix (N.of_nat j))) ->
-    read_res fs P = Err ENotExist -> read_res fs' P = Ok b -> read_volume md5 b = Err x ->
+    read_res fs P = Err ENotExist -> read_res fs' P = Ok b ->
+    (forall bi v, read_res fs ix = Ok bi -> read_volume md5 bi = Ok v ->
+       forall j, volume_path ix (N.of_nat j) = P -> not_member md5 (v_sethash_stored v) (N.of_nat j) b) ->
     fst (p1_load md5 ix (io_init fs' [])) = fst (p1_load md5 ix (io_init fs [])).
   Proof.
     intros Hix Hent Hvol HP HP' Hb. unfold p1_load.
@@ -121,17 +141,46 @@ Section Par1Volumes.
       try (injection HD as ->; reflexivity).
     injection HD as ->.
     destruct ds as [|d0 ds]; [reflexivity|].
-    destruct (256 <=? v_count v); [reflexivity|]. cbv zeta.
+    fold es. destruct (256 <=? N.of_nat (length es)); [reflexivity|]. cbv zeta.
     destruct P1 as (Pf & Ps & _). destruct P1' as (Pf' & Ps' & _).
     rewrite Hs1 in Ps. rewrite Hs1' in Ps'. rewrite Hf1 in Pf. rewrite Hf1' in Pf'.
     match goal with |- context [load_vols md5 ix ?a ?i ?n ?s ?acc s2] =>
-      pose proof (load_vols_fst_skip ix a P b x Hb n i s acc s2 s2' Ps Ps') as HV;
+      pose proof (load_vols_fst_skip_gen ix a P b (Hb bi v eq_refl Ev) n i s acc s2 s2' Ps Ps') as HV;
       destruct (load_vols md5 ix a i n s acc s2) as [[[slots size]|x0|q0] s3];
       destruct (load_vols md5 ix a i n s acc s2') as [[[slots' size']|x0'|q0'] s3'] end;
       cbn [fst] in HV |- *;
       (assert (HV' : _) by (apply HV; [intros j Hj; rewrite Pf, Pf'; apply Hvol; exact Hj
                                       |rewrite Pf; exact HP|rewrite Pf'; exact HP']));
       try discriminate HV'; injection HV'; intros; subst; reflexivity.
+  Qed.
+
+  (** * V3 (general form): the loading phase ignores a file at a volume path that is not a volume of the set *)
+  (* fs and fs' differ at the volume path only: fs has nothing there, fs' a file that is not a member of the set of
+     the index (whenever the index of fs parses): it does not parse, or carries another set hash, or another number.
+     No saved entry of the index names that path.  Then the loading phase returns the same outcome, state included. *)
+  Theorem p1_load_ignores_not_member_volume ix k fs fs' b :
+    (forall p, p <> volume_path ix k -> fs_lookup fs' p = fs_lookup fs p /\ is_dir fs' p = is_dir fs p) ->
+    fs_lookup fs (volume_path ix k) = None -> is_dir fs (volume_path ix k) = false ->
+    fs_lookup fs' (volume_path ix k) = Some b ->
+    (forall bi v, fs_lookup fs ix = Some bi -> read_volume md5 bi = Ok v -> not_member md5 (v_sethash_stored v) k b) ->
+    (forall bi v e, fs_lookup fs ix = Some bi -> read_volume md5 bi = Ok v -> In e (v_entries v) -> saved e = true ->
+       join2 (dir ix) (e_name e) <> volume_path ix k) ->
+    fst (p1_load md5 ix (io_init fs' [])) = fst (p1_load md5 ix (io_init fs [])).
+  Proof.
+    intros Hdiff Hnone Hnodir Hsome Hb Hent.
+    destruct (str_eqb (ext ix) EXT_PAR) eqn:He.
+    2:{ unfold p1_load. rewrite He. reflexivity. }
+    assert (Hsame : forall p, p <> volume_path ix k -> read_res fs' p = read_res fs p).
+    { intros p Hp. unfold read_res. destruct (Hdiff p Hp) as [-> ->]. reflexivity. }
+    apply (p1_load_fst_same_gen ix fs fs' (volume_path ix k) b).
+    - apply Hsame. apply index_not_volume. exact He.
+    - intros bi v e Hix Hv Hin Hsv. apply Hsame. unfold epath.
+      exact (Hent bi v e (read_res_ok_lookup fs ix bi Hix) Hv Hin Hsv).
+    - intros j Hj. apply Hsame. exact Hj.
+    - unfold read_res. rewrite Hnone, Hnodir. reflexivity.
+    - unfold read_res. rewrite Hsome. reflexivity.
+    - intros bi v Hix Hv j Hj. apply volume_path_inj in Hj. rewrite Hj.
+      exact (Hb bi v (read_res_ok_lookup fs ix bi Hix) Hv).
   Qed.
 
   (** * V2: the loading phase ignores a present but unparsable volume *)
@@ -148,18 +197,90 @@ Section Par1Volumes.
     fst (p1_load md5 ix (io_init fs' [])) = fst (p1_load md5 ix (io_init fs [])).
   Proof.
     intros Hdiff Hnone Hnodir Hsome Hb Hent.
-    destruct (str_eqb (ext ix) EXT_PAR) eqn:He.
-    2:{ unfold p1_load. rewrite He. reflexivity. }
-    assert (Hsame : forall p, p <> volume_path ix k -> read_res fs' p = read_res fs p).
-    { intros p Hp. unfold read_res. destruct (Hdiff p Hp) as [-> ->]. reflexivity. }
-    apply (p1_load_fst_same_gen ix fs fs' (volume_path ix k) b x).
-    - apply Hsame. apply index_not_volume. exact He.
-    - intros bi v e Hix Hv Hin Hsv. apply Hsame. unfold epath.
-      exact (Hent bi v e (read_res_ok_lookup fs ix bi Hix) Hv Hin Hsv).
-    - intros j Hj. apply Hsame. exact Hj.
-    - unfold read_res. rewrite Hnone, Hnodir. reflexivity.
-    - unfold read_res. rewrite Hsome. reflexivity.
-    - exact Hb.
+    apply (p1_load_ignores_not_member_volume ix k fs fs' b Hdiff Hnone Hnodir Hsome); [|exact Hent].
+    intros bi v _ _. unfold not_member. rewrite Hb. exact I.
+  Qed.
+
+  (** * V3: the loading phase ignores a stale or foreign volume *)
+  (* the same with a file that PARSES as a PAR 1.0 volume but carries another set hash than the index (a stale volume
+     of an earlier set, or a volume of a foreign set, under the name of a volume of this set) *)
+  Theorem p1_load_ignores_foreign_volume ix k fs fs' b vb :
+    (forall p, p <> volume_path ix k -> fs_lookup fs' p = fs_lookup fs p /\ is_dir fs' p = is_dir fs p) ->
+    fs_lookup fs (volume_path ix k) = None -> is_dir fs (volume_path ix k) = false ->
+    fs_lookup fs' (volume_path ix k) = Some b -> read_volume md5 b = Ok vb ->
+    (forall bi v, fs_lookup fs ix = Some bi -> read_volume md5 bi = Ok v -> v_sethash_stored vb <> v_sethash_stored v) ->
+    (forall bi v e, fs_lookup fs ix = Some bi -> read_volume md5 bi = Ok v -> In e (v_entries v) -> saved e = true ->
+       join2 (dir ix) (e_name e) <> volume_path ix k) ->
+    fst (p1_load md5 ix (io_init fs' [])) = fst (p1_load md5 ix (io_init fs [])).
+  Proof.
+    intros Hdiff Hnone Hnodir Hsome Hb Hh Hent.
+    apply (p1_load_ignores_not_member_volume ix k fs fs' b Hdiff Hnone Hnodir Hsome); [|exact Hent].
+    intros bi v Hix Hv. unfold not_member. rewrite Hb. left. exact (Hh bi v Hix Hv).
+  Qed.
+
+  (* ... or a volume number that is not the one of its file name *)
+  Theorem p1_load_ignores_misnumbered_volume ix k fs fs' b vb :
+    (forall p, p <> volume_path ix k -> fs_lookup fs' p = fs_lookup fs p /\ is_dir fs' p = is_dir fs p) ->
+    fs_lookup fs (volume_path ix k) = None -> is_dir fs (volume_path ix k) = false ->
+    fs_lookup fs' (volume_path ix k) = Some b -> read_volume md5 b = Ok vb -> v_number vb <> k ->
+    (forall bi v e, fs_lookup fs ix = Some bi -> read_volume md5 bi = Ok v -> In e (v_entries v) -> saved e = true ->
+       join2 (dir ix) (e_name e) <> volume_path ix k) ->
+    fst (p1_load md5 ix (io_init fs' [])) = fst (p1_load md5 ix (io_init fs [])).
+  Proof.
+    intros Hdiff Hnone Hnodir Hsome Hb Hn Hent.
+    apply (p1_load_ignores_not_member_volume ix k fs fs' b Hdiff Hnone Hnodir Hsome); [|exact Hent].
+    intros bi v _ _. unfold not_member. rewrite Hb. right. exact Hn.
+  Qed.
+
+  (* Verify and Repair are functions of the outcome of the loading phase (on fault-free states) *)
+  Lemma par1_verify_fst_of_load ix all st st2 :
+    fst (p1_load md5 ix st2) = fst (p1_load md5 ix st) ->
+    fst (par1_verify md5 ix all st2) = fst (par1_verify md5 ix all st).
+  Proof.
+    intros E. unfold par1_verify.
+    destruct (p1_load md5 ix st2) as [o' st1']. destruct (p1_load md5 ix st) as [o st1].
+    cbn [fst] in E. subst o'.
+    destruct o as [s|x0|q0]; [|reflexivity|reflexivity]. cbv zeta.
+    lazymatch goal with |- fst (if ?c then _ else _) = _ => destruct c end; [|reflexivity].
+    destruct (build_shards s) as [sh|x0|q0]; [|reflexivity|reflexivity].
+    lazymatch goal with |- context [rs_verify ?a ?b ?c] => destruct (rs_verify a b c) as [ok|x0|q0] end; reflexivity.
+  Qed.
+
+  Lemma p1_write_repaired_fst_nosched ix : forall todo done st st2, io_sched st = [] -> io_sched st2 = [] ->
+    fst (p1_write_repaired md5 ix todo done st2) = fst (p1_write_repaired md5 ix todo done st).
+  Proof.
+    induction todo as [|[e [[given|] shard]] todo IH]; intros done st st2 Hs Hs2; cbn [p1_write_repaired].
+    - reflexivity.
+    - apply IH; assumption.
+    - destruct (N.of_nat (length shard) <? e_len e); [reflexivity|]. cbv zeta.
+      destruct (negb (bytes_eqb (hash16k md5 (firstn (N.to_nat (e_len e)) shard)) (e_h16 e))); [reflexivity|].
+      destruct (negb (bytes_eqb (md5 (firstn (N.to_nat (e_len e)) shard)) (e_hash e))); [reflexivity|].
+      destruct (entry_path ix e) as [p|x|q]; [|reflexivity|reflexivity].
+      rewrite (io_write_nosched _ _ st Hs), (io_write_nosched _ _ st2 Hs2).
+      apply IH; reflexivity || (cbn [tick io_sched]; assumption).
+  Qed.
+
+  Lemma par1_repair_fst_of_load ix dbl st st2 : io_sched st = [] -> io_sched st2 = [] ->
+    fst (p1_load md5 ix st2) = fst (p1_load md5 ix st) ->
+    fst (par1_repair md5 ix dbl st2) = fst (par1_repair md5 ix dbl st).
+  Proof.
+    intros Hs Hs2 E. unfold par1_repair.
+    pose proof (p1_load_pres md5 ix st) as P. pose proof (p1_load_pres md5 ix st2) as P2.
+    destruct (p1_load md5 ix st2) as [o' st1']. destruct (p1_load md5 ix st) as [o st1].
+    cbn [fst snd] in E, P, P2. subst o'.
+    destruct P as (_ & Ps & _). destruct P2 as (_ & Ps2 & _).
+    destruct o as [s|x0|q0]; [|reflexivity|reflexivity]. cbv zeta.
+    destruct (Nat.eqb (s_size s) 0).
+    { destruct (Nat.eqb (count_none1 (s_data s)) 0); reflexivity. }
+    destruct (Nat.ltb 256 (length (s_data s) + length (s_parity s))); [reflexivity|].
+    destruct (build_shards s) as [sh|x0|q0]; [|reflexivity|reflexivity].
+    lazymatch goal with |- context [par1_reconstruct ?a ?b ?c] => destruct (par1_reconstruct a b c) as [full|x0|q0] end;
+      [|reflexivity|reflexivity].
+    destruct dbl.
+    - lazymatch goal with |- context [rs_verify ?a ?b ?c] => destruct (rs_verify a b c) as [[|]|x0|q0] end;
+        try reflexivity.
+      apply p1_write_repaired_fst_nosched; congruence.
+    - apply p1_write_repaired_fst_nosched; congruence.
   Qed.
 
   (* in particular the loaded states agree on the saved entries, data, shard size and parity, and the file counts *)
@@ -190,18 +311,78 @@ Section Par1Volumes.
        join2 (dir ix) (e_name e) <> volume_path ix k) ->
     fst (par1_verify md5 ix all (io_init fs' [])) = fst (par1_verify md5 ix all (io_init fs [])).
   Proof.
-    intros Hdiff Hnone Hnodir Hsome Hb Hent.
-    pose proof (p1_load_ignores_unparsable_volume ix k fs fs' b x Hdiff Hnone Hnodir Hsome Hb Hent) as E.
-    unfold par1_verify.
-    destruct (p1_load md5 ix (io_init fs' [])) as [o' st1']. destruct (p1_load md5 ix (io_init fs [])) as [o st1].
-    cbn [fst] in E. subst o'.
-    destruct o as [s|x0|q0]; [|reflexivity|reflexivity]. cbv zeta.
-    lazymatch goal with |- fst (if ?c then _ else _) = _ => destruct c end; [|reflexivity].
-    destruct (build_shards s) as [sh|x0|q0]; [|reflexivity|reflexivity].
-    lazymatch goal with |- context [rs_verify ?a ?b ?c] => destruct (rs_verify a b c) as [ok|x0|q0] end; reflexivity.
+    intros Hdiff Hnone Hnodir Hsome Hb Hent. apply par1_verify_fst_of_load.
+    exact (p1_load_ignores_unparsable_volume ix k fs fs' b x Hdiff Hnone Hnodir Hsome Hb Hent).
+  Qed.
+
+  (** * V3 for Verify and Repair: a stale or foreign volume (it parses, but carries another set hash than the index)
+      changes nothing: Verify returns the same counts and verdict or the same error, Repair the same result and
+      the same list of repaired files, as with that file absent *)
+  Theorem par1_verify_ignores_foreign_volume ix k all fs fs' b vb :
+    (forall p, p <> volume_path ix k -> fs_lookup fs' p = fs_lookup fs p /\ is_dir fs' p = is_dir fs p) ->
+    fs_lookup fs (volume_path ix k) = None -> is_dir fs (volume_path ix k) = false ->
+    fs_lookup fs' (volume_path ix k) = Some b -> read_volume md5 b = Ok vb ->
+    (forall bi v, fs_lookup fs ix = Some bi -> read_volume md5 bi = Ok v -> v_sethash_stored vb <> v_sethash_stored v) ->
+    (forall bi v e, fs_lookup fs ix = Some bi -> read_volume md5 bi = Ok v -> In e (v_entries v) -> saved e = true ->
+       join2 (dir ix) (e_name e) <> volume_path ix k) ->
+    fst (par1_verify md5 ix all (io_init fs' [])) = fst (par1_verify md5 ix all (io_init fs [])).
+  Proof.
+    intros Hdiff Hnone Hnodir Hsome Hb Hh Hent. apply par1_verify_fst_of_load.
+    exact (p1_load_ignores_foreign_volume ix k fs fs' b vb Hdiff Hnone Hnodir Hsome Hb Hh Hent).
+  Qed.
+
+  Theorem par1_repair_ignores_foreign_volume ix k dbl fs fs' b vb :
+    (forall p, p <> volume_path ix k -> fs_lookup fs' p = fs_lookup fs p /\ is_dir fs' p = is_dir fs p) ->
+    fs_lookup fs (volume_path ix k) = None -> is_dir fs (volume_path ix k) = false ->
+    fs_lookup fs' (volume_path ix k) = Some b -> read_volume md5 b = Ok vb ->
+    (forall bi v, fs_lookup fs ix = Some bi -> read_volume md5 bi = Ok v -> v_sethash_stored vb <> v_sethash_stored v) ->
+    (forall bi v e, fs_lookup fs ix = Some bi -> read_volume md5 bi = Ok v -> In e (v_entries v) -> saved e = true ->
+       join2 (dir ix) (e_name e) <> volume_path ix k) ->
+    fst (par1_repair md5 ix dbl (io_init fs' [])) = fst (par1_repair md5 ix dbl (io_init fs [])).
+  Proof.
+    intros Hdiff Hnone Hnodir Hsome Hb Hh Hent. apply par1_repair_fst_of_load; [reflexivity|reflexivity|].
+    exact (p1_load_ignores_foreign_volume ix k fs fs' b vb Hdiff Hnone Hnodir Hsome Hb Hh Hent).
+  Qed.
+
+  (* the three together *)
+  Theorem par1_foreign_volume_ignored_all ix k fs fs' b vb :
+    (forall p, p <> volume_path ix k -> fs_lookup fs' p = fs_lookup fs p /\ is_dir fs' p = is_dir fs p) ->
+    fs_lookup fs (volume_path ix k) = None -> is_dir fs (volume_path ix k) = false ->
+    fs_lookup fs' (volume_path ix k) = Some b -> read_volume md5 b = Ok vb ->
+    (forall bi v, fs_lookup fs ix = Some bi -> read_volume md5 bi = Ok v -> v_sethash_stored vb <> v_sethash_stored v) ->
+    (forall bi v e, fs_lookup fs ix = Some bi -> read_volume md5 bi = Ok v -> In e (v_entries v) -> saved e = true ->
+       join2 (dir ix) (e_name e) <> volume_path ix k) ->
+    fst (p1_load md5 ix (io_init fs' [])) = fst (p1_load md5 ix (io_init fs [])) /\
+    (forall all, fst (par1_verify md5 ix all (io_init fs' [])) = fst (par1_verify md5 ix all (io_init fs []))) /\
+    (forall dbl, fst (par1_repair md5 ix dbl (io_init fs' [])) = fst (par1_repair md5 ix dbl (io_init fs []))).
+  Proof.
+    intros Hdiff Hnone Hnodir Hsome Hb Hh Hent.
+    split; [exact (p1_load_ignores_foreign_volume ix k fs fs' b vb Hdiff Hnone Hnodir Hsome Hb Hh Hent)|]. split.
+    - intros all. exact (par1_verify_ignores_foreign_volume ix k all fs fs' b vb Hdiff Hnone Hnodir Hsome Hb Hh Hent).
+    - intros dbl. exact (par1_repair_ignores_foreign_volume ix k dbl fs fs' b vb Hdiff Hnone Hnodir Hsome Hb Hh Hent).
+  Qed.
+
+  (* ... and likewise for an unparsable volume (Repair; Verify is par1_verify_ignores_unparsable_volume) *)
+  Theorem par1_repair_ignores_unparsable_volume ix k dbl fs fs' b x :
+    (forall p, p <> volume_path ix k -> fs_lookup fs' p = fs_lookup fs p /\ is_dir fs' p = is_dir fs p) ->
+    fs_lookup fs (volume_path ix k) = None -> is_dir fs (volume_path ix k) = false ->
+    fs_lookup fs' (volume_path ix k) = Some b -> read_volume md5 b = Err x ->
+    (forall bi v e, fs_lookup fs ix = Some bi -> read_volume md5 bi = Ok v -> In e (v_entries v) -> saved e = true ->
+       join2 (dir ix) (e_name e) <> volume_path ix k) ->
+    fst (par1_repair md5 ix dbl (io_init fs' [])) = fst (par1_repair md5 ix dbl (io_init fs [])).
+  Proof.
+    intros Hdiff Hnone Hnodir Hsome Hb Hent. apply par1_repair_fst_of_load; [reflexivity|reflexivity|].
+    exact (p1_load_ignores_unparsable_volume ix k fs fs' b x Hdiff Hnone Hnodir Hsome Hb Hent).
   Qed.
 End Par1Volumes.
 
 Print Assumptions p1_load_ignores_unparsable_volume.
 Print Assumptions p1_load_ignores_unparsable_volume_state.
 Print Assumptions par1_verify_ignores_unparsable_volume.
+Print Assumptions p1_load_ignores_not_member_volume.
+Print Assumptions p1_load_ignores_foreign_volume.
+Print Assumptions p1_load_ignores_misnumbered_volume.
+Print Assumptions par1_verify_ignores_foreign_volume.
+Print Assumptions par1_repair_ignores_foreign_volume.
+Print Assumptions par1_repair_ignores_unparsable_volume.
+Print Assumptions par1_foreign_volume_ignored_all.
